@@ -7,6 +7,7 @@ import (
 	"os/exec"
 	"path/filepath"
 	"reflect"
+	"runtime"
 	"sort"
 	"strconv"
 	"strings"
@@ -111,7 +112,7 @@ func init() {
 		spec := &mc.Spec{
 			Level: "exploration",
 			Rule: "family 0 (real cgroup v1 hierarchy): every operation sequence of ≤ maxOps over {New(prefix) with controller sets {memory} / {cpu,memory,pids}, h.New(child), h.Random(pattern) with the random source scripted over a 2-value domain, h.Nest(name) on a group that holds a helper process, OpenExisting, AddProc(helper), SetMemoryLimit, SetProcLimit, SetCPUBandwidth, Destroy(any live handle)}; state = directories below the test prefix, the helper's membership, the limit files; reference tree with a created-by flag per handle. " +
-				"family 3 (real cgroup v2 hierarchy, bind-mounted on /sys/fs/cgroup in a private mount namespace of a helper process; no controllers available): the same sequences one operation shorter, without limit operations. family 1 (schedules): two creators working on the same name (New+New, Random+Random with the same scripted name, New+Destroy of the other's group), all interleavings of their instrumented file-system calls. family 2 (statistics files): every reading function on fake group directories whose files hold {0, 1, 2^32, 2^53, extra fields before / after, no trailing newline, missing file}, v1 and v2 layouts. " +
+				"family 3 (real cgroup v2 hierarchy, bind-mounted on /sys/fs/cgroup in a private mount namespace of a helper process; no controllers available): the same sequences one operation shorter, without limit operations. family 1 (schedules): two creators working on the same name (h.New+h.New, h.Random+h.Random with the same scripted name, h.New+Destroy of the other's group, top-level New+New of one prefix, top-level New + New-then-Destroy), all interleavings of their instrumented file-system calls; family 4: the same three scenarios with all their interleavings on the real cgroup v2 hierarchy (enumerated inside the helper's mount namespace). family 2 (statistics files): every reading function on fake group directories whose files hold {0, 1, 2^32, 2^53, extra fields before / after, no trailing newline, missing file}, v1 and v2 layouts. " +
 				"non-trivial: the sequence creates at least two handles or destroys one; distinct = (sequence or schedule, resulting tree)",
 			Bound:       map[string]any{"max_ops": maxOps, "v2_scope": "cgroup v2 controller files (memory.max, pids.max, memory.peak, pids.peak) cannot be exercised against this kernel (controllers are bound to v1); the v2 reading and writing functions are checked on fake directories only"},
 			Assumptions: []string{"the overlay instrumentation only inserts calls before file-system operations and a seam in nextRandom"},
@@ -126,11 +127,13 @@ func init() {
 			v2ops := maxOps - 1 // each v2 sequence costs a helper process in its own mount namespace
 			if c20v2 {
 				// replayed inside the v2 mount namespace: the family choice is still consumed
-				x.Choose(4, "family")
+				x.Choose(5, "family")
 				c20sequence(x, v2ops)
 				return
 			}
-			switch x.Choose(4, "family") {
+			switch x.Choose(5, "family") {
+			case 4:
+				c20schedOnV2(x)
 			case 3:
 				c20onV2(x, v2ops)
 			case 0:
@@ -509,6 +512,100 @@ func c20onV2(x *mc.X, maxOps int) {
 
 var c20tier = "quick"
 
+// c20schedOnV2: the schedule family (two creators, every interleaving of their instrumented file-system calls) on the
+// real cgroup v2 hierarchy. The helper process in the v2 mount namespace enumerates all schedules of one scenario itself
+// (the schedule tree is only known while running) and reports how many it executed and every failure it saw.
+func c20schedOnV2(x *mc.X) {
+	scen := x.Choose(len(c20schedScenarios), "scenario")
+	x.Note("family", "schedules on the cgroup v2 hierarchy")
+	x.Note("scenario-index", scen)
+	if x.Dry() {
+		return
+	}
+	self, _ := os.Executable()
+	cmd := exec.Command("unshare", "--mount", "--propagation", "private", "sh", "-c",
+		"mount --bind /sys/fs/cgroup/unified /sys/fs/cgroup && exec \"$0\" c20v2sched \"$1\"", self, fmt.Sprint(scen))
+	cmd.Env = append(os.Environ(), "C20_V2=1")
+	cmd.Stderr = os.Stderr
+	out, err := cmd.Output()
+	var rep struct {
+		Schedules int64          `json:"schedules"`
+		Steps     int64          `json:"steps"`
+		Outcomes  map[string]int `json:"outcomes"`
+		Fails     []struct {
+			Key, What string
+			Choices   []int
+		} `json:"fails"`
+	}
+	lines := strings.Split(strings.TrimSpace(string(out)), "\n")
+	if jerr := json.Unmarshal([]byte(lines[len(lines)-1]), &rep); jerr != nil || rep.Schedules == 0 {
+		x.Failf("C20/v2sched/harness", "schedule search in the v2 namespace failed: %v %v %.300q", err, jerr, string(out))
+		return
+	}
+	for _, f := range rep.Fails {
+		x.Failf(strings.Replace(f.Key, "C20/sched/", "C20/v2sched/", 1), "on the cgroup v2 hierarchy (schedule vector %v): %s", f.Choices, f.What)
+	}
+	x.Count(rep.Steps)
+	x.Add("v2_schedules", rep.Schedules)
+	var oc []string
+	for k, n := range rep.Outcomes {
+		oc = append(oc, fmt.Sprintf("%s=%d", k, n))
+		x.Distinct(fmt.Sprint("v2sched", scen, k))
+	}
+	sort.Strings(oc)
+	x.Note("v2-outcomes", oc)
+	x.Outcome(fmt.Sprintf("v2sched:%d:schedules=%d", scen, rep.Schedules))
+}
+
+// helper role (inside the v2 mount namespace): vcheck c20v2sched <scenario-index>
+func c20v2schedHelper(args []string) int {
+	scen := 0
+	if len(args) > 0 {
+		fmt.Sscan(args[0], &scen)
+	}
+	devnull()
+	c20cleanup()
+	defer c20cleanup()
+	type frec struct {
+		Key, What string
+		Choices   []int
+	}
+	var fails []frec
+	seen := map[string]bool{}
+	outcomes := map[string]int{}
+	var schedules, steps int64
+	cur := []int{scen}
+	for schedules < 200000 {
+		x := mc.NewX(cur)
+		c20schedules(x)
+		schedules++
+		steps += x.Evals()
+		outcomes[x.OutcomeClass()]++
+		for _, f := range x.Fails() {
+			if !seen[f.Key] {
+				seen[f.Key] = true
+				fails = append(fails, frec{f.Key, f.What, append([]int{}, x.Choices...)})
+			}
+		}
+		ar := x.Arity()
+		i := len(x.Choices) - 1
+		for ; i >= 1; i-- {
+			if x.Choices[i]+1 < ar[i] {
+				break
+			}
+		}
+		if i < 1 {
+			break
+		}
+		cur = append(append([]int{}, x.Choices[:i]...), x.Choices[i]+1)
+	}
+	b, _ := json.Marshal(map[string]any{"schedules": schedules, "steps": steps, "outcomes": outcomes, "fails": fails})
+	fmt.Println(string(b))
+	return 0
+}
+
+func init() { aux["c20v2sched"] = c20v2schedHelper }
+
 // ---- schedules: two creators, all interleavings of their instrumented file-system calls
 
 type c20sched struct {
@@ -518,8 +615,11 @@ type c20sched struct {
 	done    chan int
 }
 
+var c20schedScenarios = []string{"New+New(same name)", "Random+Random(same first draw)", "New+Destroy-by-other-creator",
+	"cgroup.New+cgroup.New(same prefix)", "cgroup.New+Destroy-by-other-creator(same prefix)"}
+
 func c20schedules(x *mc.X) {
-	scen := x.Pick("scenario", "New+New(same name)", "Random+Random(same first draw)", "New+Destroy-by-other-creator")
+	scen := x.Pick("scenario", c20schedScenarios...)
 	x.Note("scenario", scen)
 	if x.Dry() && false {
 		return
@@ -529,7 +629,11 @@ func c20schedules(x *mc.X) {
 	c20cleanup()
 	defer c20cleanup()
 	parentRel := c20prefix() + "/p" + fmt.Sprint(os.Getpid())
-	parent, err := cgroup.New(parentRel, &cgroup.Controllers{Memory: true})
+	pct := &cgroup.Controllers{Memory: true}
+	if c20v2 {
+		pct = &cgroup.Controllers{} // no controller can be enabled in this kernel's v2 hierarchy
+	}
+	parent, err := cgroup.New(parentRel, pct)
 	if err != nil {
 		x.Failf("C20/harness", "parent group: %v", err)
 		return
@@ -571,10 +675,12 @@ func c20schedules(x *mc.X) {
 		}
 		return fmt.Sprintf("own%d-%d", a, draws[a])
 	}
+	actorGid := [2]int64{-1, -1}
 	run := func(a int, f func() (cgroup.Cgroup, error)) {
 		go func() {
 			amu.Lock()
 			actorOf[goid()] = a
+			actorGid[a] = goid()
 			amu.Unlock()
 			cg, err := f()
 			res[a] = result{cg, err}
@@ -591,6 +697,18 @@ func c20schedules(x *mc.X) {
 	case "Random+Random(same first draw)":
 		run(0, func() (cgroup.Cgroup, error) { return parent.Random("r*") })
 		run(1, func() (cgroup.Cgroup, error) { return parent.Random("r*") })
+	case "cgroup.New+cgroup.New(same prefix)":
+		run(0, func() (cgroup.Cgroup, error) { return cgroup.New(parentRel+"/x", pct) })
+		run(1, func() (cgroup.Cgroup, error) { return cgroup.New(parentRel+"/x", pct) })
+	case "cgroup.New+Destroy-by-other-creator(same prefix)":
+		run(0, func() (cgroup.Cgroup, error) { return cgroup.New(parentRel+"/x", pct) })
+		run(1, func() (cgroup.Cgroup, error) {
+			cg, err := cgroup.New(parentRel+"/x", pct)
+			if err == nil {
+				err = cg.Destroy()
+			}
+			return cg, err
+		})
 	case "New+Destroy-by-other-creator":
 		run(0, func() (cgroup.Cgroup, error) { return parent.New("x") })
 		run(1, func() (cgroup.Cgroup, error) {
@@ -606,15 +724,28 @@ func c20schedules(x *mc.X) {
 	over := [2]bool{}
 	var trace []int
 	for !(over[0] && over[1]) {
-		// wait until every live actor is parked or finished
+		// wait until every live actor is parked at a scheduling point, finished, or blocked on a lock of the package that
+		// the other (parked) actor holds — waiting is made visible by looking at the goroutine's state
+		blocked := [2]bool{}
 		for a := 0; a < 2; a++ {
-			for !parked[a] && !over[a] {
+			waited := time.Duration(0)
+			for !parked[a] && !over[a] && !blocked[a] {
 				select {
 				case w := <-arrived:
 					parked[w] = true
 				case w := <-finished:
 					over[w] = true
-				case <-time.After(horizon):
+				case <-time.After(2 * time.Millisecond):
+					waited += 2 * time.Millisecond
+					amu.Lock()
+					g := actorGid[a]
+					amu.Unlock()
+					if st := goroutineState(g); strings.Contains(st, "Mutex") || strings.Contains(st, "semacquire") || strings.Contains(st, "Cond.Wait") {
+						blocked[a] = true
+					}
+					if waited < horizon {
+						continue
+					}
 					x.Failf("C20/sched/stuck", "%s: an actor neither reached a scheduling point nor finished", scen)
 					return
 				}
@@ -627,6 +758,10 @@ func c20schedules(x *mc.X) {
 			}
 		}
 		if len(enabled) == 0 {
+			if blocked[0] || blocked[1] {
+				x.Failf("C20/sched/deadlock/"+scen, "%s, schedule %v: no actor can move (blocked on a lock: %v)", scen, trace, blocked)
+				return
+			}
 			break
 		}
 		a := enabled[0]
@@ -642,7 +777,7 @@ func c20schedules(x *mc.X) {
 	// oracle
 	var made []string
 	for a := 0; a < 2; a++ {
-		if res[a].err == nil && res[a].cg != nil && scen != "New+Destroy-by-other-creator" {
+		if res[a].err == nil && res[a].cg != nil && !strings.Contains(scen, "Destroy-by-other-creator") {
 			for _, p := range cgroup.VerifPaths(res[a].cg) {
 				if !res[a].cg.Existing() {
 					made = append(made, p)
@@ -662,7 +797,7 @@ func c20schedules(x *mc.X) {
 			x.Failf("C20/sched/random-not-distinct", "%s, schedule %v: two concurrent Random calls returned the same group %s", scen, trace, p0[0])
 		}
 	}
-	if scen == "New+Destroy-by-other-creator" && res[0].err == nil && res[0].cg != nil {
+	if strings.Contains(scen, "Destroy-by-other-creator") && res[0].err == nil && res[0].cg != nil {
 		// creator 0 believes it owns x if it reports !Existing(); then x must still exist unless creator 1 created it
 		p := cgroup.VerifPaths(res[0].cg)
 		if !res[0].cg.Existing() && len(p) > 0 && !dirExists(p[0]) {
@@ -766,6 +901,22 @@ func c20stats(x *mc.X) {
 }
 
 // goid returns the id of the calling goroutine (parsed from the stack header).
+// goroutineState returns the wait state the runtime prints for goroutine id ("" if it is gone).
+func goroutineState(id int64) string {
+	if id < 0 {
+		return ""
+	}
+	buf := make([]byte, 1<<20)
+	n := runtime.Stack(buf, true)
+	tag := fmt.Sprintf("goroutine %d [", id)
+	for _, l := range strings.Split(string(buf[:n]), "\n") {
+		if strings.HasPrefix(l, tag) {
+			return strings.TrimSuffix(strings.TrimPrefix(l, tag), "]:")
+		}
+	}
+	return ""
+}
+
 func goid() int64 {
 	var buf [64]byte
 	n := runtimeStack(buf[:])
